@@ -24,13 +24,15 @@ import threading
 
 import pfimport  # noqa: F401
 
+import c05_cleanup
 import c05_crashfs as crashfs
 import c05_fstrace as fstrace
+import c05_mutres
 import mapgen
 import terms
 
 PID = "C05"
-PROPS = ["PfModel.Props.C05"]
+PROPS = ["PfModel.Props.C05", "PfModel.Props.C05Par"]
 DRIVER = "C05"
 RULE = ("corpus (element-wise map + reduction on file_array and dict; an un-mapped tuple-output function with a custom output_picker) then "
         "well-formed map pipelines of 1-3 functions from mapgen (element-wise/zip, outer product, partial and full reduction, internal axes via "
@@ -81,12 +83,20 @@ def _tuple_case():
     return {"funcs": [f, g], "inputs": [["x0", {"arr": [[2], [_in("x0", [i]) for i in range(2)]]}]], "input_kinds": {"x0": "array"}, "internal": [], "sizes": {}}
 
 
+def _mix_case():
+    f = _func("f0", ["x0"], ["y0"], {"inputs": [["x0", ["i"]]], "outputs": [["y0", ["i"]]]})
+    g = _func("f1", ["y0"], ["y1"], {"inputs": [["y0", ["i"]]], "outputs": [["y1", ["i"]]]})
+    h = _func("f2", ["y1"], ["y2"])
+    return {"funcs": [f, g, h], "inputs": [["x0", {"arr": [[2], [_in("x0", [i]) for i in range(2)]]}]], "input_kinds": {"x0": "array"}, "internal": [], "sizes": {}}
+
+
 # past failures first: DF-14 (every window of the pinned write protocol, file_array and dict), DF-33, DF-22
 CORPUS = [
     {"desc": _design_case(3), "storage": "file_array", "mode": "seq", "picker": []},
     {"desc": _design_case(2), "storage": "dict", "mode": "seq", "picker": []},
     {"desc": _picker_case(), "storage": "file_array", "mode": "seq", "picker": ["f0"]},
     {"desc": _tuple_case(), "storage": "file_array", "mode": "seq", "picker": []},      # an element with one of two outputs stored is re-run
+    {"desc": _mix_case(), "storage": "file_array", "other": ["f1"], "mode": "seq", "picker": []},   # per-output storage mix: y0 in files, y1 in a dict
 ]
 
 
@@ -129,11 +139,35 @@ def func_order(case):
     return case["order"]
 
 
+def is_dict(case, fname):
+    """Does the function's output live in a DictArray?  `case["other"]` lists the functions that use the non-default storage."""
+    return (case["storage"] == "dict") != (fname in (case.get("other") or []))
+
+
+def body_orders(case, model_calls_, real):
+    """For every generation: the order (indices into the bodies in submission order = the model's sequential calls of that
+    generation) in which the pool really started the bodies (order of the `call` events of the real trace)."""
+    p, _ = mapgen.build(case["desc"])
+    gens = [[f.__name__ for f in gen] for gen in p.topological_generations.function_lists]
+    key = lambda fn, kw: json.dumps([fn, sorted(([k, terms.canon(v)] for k, v in kw), key=lambda kv: kv[0])])  # noqa: E731
+    rcalls = [json.dumps([e[1], e[2]]) for e in real if e[0] == "call"]
+    orders = []
+    for g in gens:
+        sub = [key(fn, kw) for fn, _li, kw in model_calls_ if fn in g]
+        if len(set(sub)) != len(sub):
+            raise ValueError("indistinguishable bodies")
+        seen = [c for c in rcalls if c in set(sub)]
+        if sorted(seen) != sorted(sub):
+            raise ValueError("calls of the generation differ")
+        orders.append([sub.index(c) for c in seen])
+    return orders
+
+
 def model_req(case, cfg=None, **extra):
     a = dict(mapgen.model_request(case["desc"]))
     pos = {n: i for i, n in enumerate(func_order(case))}
     a["funcs"] = sorted(a["funcs"], key=lambda f: pos.get(f["name"], len(pos)))
-    a["cfg"] = {"dict": case["storage"] == "dict", **(cfg or {})}
+    a["cfg"] = {"dict": case["storage"] == "dict", "other": list(case.get("other") or []), **(cfg or {})}
     a.update(extra)
     return a
 
@@ -161,8 +195,8 @@ class Lab:
             return os.path.join(self.base, f"run-{self.n:07d}")
 
     def spec(self, case, folder, cleanup, fail=None, mode=None):
-        return {"desc": case["desc"], "storage": case["storage"], "folder": folder, "cleanup": cleanup, "log": folder + ".calls",
-                "mode": mode or case.get("mode", "seq"), "picker": case.get("picker") or [], "fail": fail}
+        return {"desc": case["desc"], "storage": case["storage"], "other": case.get("other") or [], "folder": folder, "cleanup": cleanup, "log": folder + ".calls",
+                "mode": mode or case.get("mode", "seq"), "picker": case.get("picker") or [], "fail": fail, "perm_seed": case.get("perm_seed", 0)}
 
     def run(self, spec, trace=False):
         """Run a child (under strace when `trace`); returns (result, events|None, calls)."""
@@ -202,7 +236,7 @@ def data_files(fs_abs):
 # ------------------------------------------------------------------------------------------------ judging one resumed state
 def judge_resume(ctx, case, history, fs_abs, impl, impl_calls, after_abs, full, model):
     """`history` describes how the folder state was produced; `full` is the uninterrupted run (outputs, model calls, folder)."""
-    rec = {"desc": case["desc"], "storage": case["storage"], "mode": case.get("mode", "seq"), "picker": case.get("picker") or [], "history": history}
+    rec = rec_of(case, history)
     files = data_files(fs_abs)
     nontrivial = bool(files) and files != full["files"]
     ctx.record(rec, nontrivial, validated=False)
@@ -224,9 +258,10 @@ def judge_resume(ctx, case, history, fs_abs, impl, impl_calls, after_abs, full, 
     for fn, li, kw in full["model_calls"]:
         f = next(x for x in case["desc"]["funcs"] if x["name"] == fn)
         mapped = bool(f["mapspec"] and f["mapspec"]["inputs"])
-        if mapped and case["storage"] == "dict":
-            continue            # dict arrays store nothing before the final persist; covered by the comparison with the model
-        paths = [json.dumps(["cell", o, li] if mapped else ["single", o]) for o in f["outputs"]]
+        if mapped and is_dict(case, fn):
+            paths = [json.dumps(["dictArr", o]) for o in f["outputs"]]      # stored = the persisted dict of every output exists
+        else:
+            paths = [json.dumps(["cell", o, li] if mapped else ["single", o]) for o in f["outputs"]]
         if all(p in complete for p in paths) and canon_calls([[fn, kw]])[0] in impl_c:
             ctx.violation(rec, f"`{fn}` was called again for element {li} although all its outputs were completely stored", impl={"calls": impl_c},
                           key="recomputed stored element")
@@ -275,7 +310,8 @@ def resume_state(lab, case, stages, trace=False):  # noqa: FBT002
 
 
 def rec_of(case, history):
-    return {"desc": case["desc"], "storage": case["storage"], "mode": case.get("mode", "seq"), "picker": case.get("picker") or [], "history": history}
+    return {"desc": case["desc"], "storage": case["storage"], "other": case.get("other") or [], "mode": case.get("mode", "seq"),
+            "perm_seed": case.get("perm_seed", 0), "picker": case.get("picker") or [], "history": history}
 
 
 def kill_hist(ev, folder, k, tear):
@@ -317,12 +353,13 @@ def raise_one(lab, case, order, g):
 def check_all(ctx, lab, cases, second=0, max_states=None, max_raises=None, second_pts=24):
     # ---------------- phase A: uninterrupted runs under strace; one model batch
     traced = list(lab.pool.map(lambda c: trace_case(lab, c), cases))
+    ctx.notes.append(f"t(traced runs)={ctx.elapsed():.1f}s")
     fresh = ctx.lean([{"m": "map.events", "a": model_req(t["case"])} for t in traced])
     live = []
     for t, fr in zip(traced, fresh):
         case, fr = t["case"], fr["r"]
         mode = case.get("mode", "seq")
-        ctx.count(f"pipeline:{case['storage']}:{mode}")
+        ctx.count(f"pipeline:{case['storage']}{'+mix' if case.get('other') else ''}:{mode}")
         rec0 = rec_of(case, [])
         if "unmodelled" in t:
             ctx.violation(rec0, f"the run performs a file-system operation the model has no counterpart for: {t['unmodelled']}", found_input=False,
@@ -355,13 +392,38 @@ def check_all(ctx, lab, cases, second=0, max_states=None, max_raises=None, secon
                           model={"event": model_ev[i] if i < len(model_ev) else None, "n": len(model_ev)})
             # the crash enumeration below still evaluates the property itself on the real trace
         live.append(t)
+    # ---------------- phase A': pool runs against the scheduled model (`runOnP` with the body order the pool really produced)
+    par = []
+    for t in live:
+        if t["case"].get("mode", "seq") == "seq":
+            continue
+        try:
+            orders = body_orders(t["case"], t["fresh"]["calls"], crashfs.canon_real(t["ev0"], t["f0"]))
+            par.append((t, orders))
+        except Exception as e:  # noqa: BLE001
+            ctx.skip("par-order:" + type(e).__name__)
+    if par:
+        outs = ctx.lean([{"m": "map.par_events", "a": model_req(t["case"], orders=o)} for t, o in par])
+        for (t, orders), o in zip(par, outs):
+            real = crashfs.canon_real(t["ev0"], t["f0"])
+            mod = crashfs.canon_model(o["r"]["events"])
+            ctx.count("par-schedule:" + ("identity" if all(x == sorted(x) for x in orders) else "permuted"))
+            ctx.record(rec_of(t["case"], [{"kind": "trace-par"}]), True, validated=True)
+            exact = t["case"].get("mode") == "perm"        # bodies are atomic under the permuting executor: the event lists must be equal
+            if [e for e in real if e[0] == "call"] != [e for e in mod if e[0] == "call"] or (exact and real != mod) or \
+                    sorted(map(json.dumps, real)) != sorted(map(json.dumps, mod)) or "err" in o["r"]["result"]:
+                ctx.violation(rec_of(t["case"], []), "the pool run is not the scheduled model's run for the body order it really had", found_input=False,
+                              item="correspondence:trace-par", impl={"calls": [e for e in real if e[0] == "call"][:8]},
+                              model={"calls": [e for e in mod if e[0] == "call"][:8], "orders": orders})
     # ---------------- phase B: every crash point of every trace, and every raising call; one model batch
+    ctx.notes.append(f"t(trace validation)={ctx.elapsed():.1f}s")
     jobs = []
     for t in live:
         case, ev0, f0 = t["case"], t["ev0"], t["f0"]
         pts = crashfs.crash_points(ev0)
-        if max_states and len(pts) > max_states:
-            pts = [pts[i] for i in sorted(ctx.rng.sample(range(len(pts)), max_states))]
+        ms = case.get("max_states") or max_states
+        if ms and len(pts) > ms:
+            pts = [pts[i] for i in sorted(ctx.rng.sample(range(len(pts)), ms))]
         for k, tear in pts:
             jobs.append((t, [kill_hist(ev0, f0, k, tear)], lab.pool.submit(resume_state, lab, case, [(ev0, k, tear, f0)])))
         t["raise_jobs"] = []
@@ -387,7 +449,9 @@ def check_all(ctx, lab, cases, second=0, max_states=None, max_raises=None, secon
             reqs.append({"m": "map.events", "a": model_req(t["case"], cfg={"fail_at": st["g"]})})
             reqs.append({"m": "map.run_on", "a": model_req(t["case"], fs=st["fs"])})
             todo.append(("raise", t, [{"kind": "raise", "function": st["fn"], "call_index": st["idx"], "global_call": st["g"]}], st))
+    ctx.notes.append(f"t(crash states resumed)={ctx.elapsed():.1f}s")
     outs = iter(ctx.lean(reqs) if reqs else [])
+    ctx.notes.append(f"t(model on crash states)={ctx.elapsed():.1f}s")
     for kind, t, h, st in todo:
         case = t["case"]
         if kind == "kill":
@@ -453,30 +517,54 @@ def run(ctx):
     try:
         quick = ctx.tier == "quick"
         cases = [copy.deepcopy(c) for c in CORPUS]
-        for k in range(ctx.n(4, 30)):
-            cases.append({"desc": gen_case(ctx.rng), "storage": "file_array" if k % 3 != 2 else "dict", "mode": "seq", "picker": []})
+        for k in range(ctx.n(3, 30)):
+            d = gen_case(ctx.rng)
+            mapped = [f["name"] for f in d["funcs"] if f["mapspec"] and f["mapspec"]["inputs"]]
+            other = [n for n in mapped if ctx.rng.random() < 0.5] if k % 4 == 3 else []      # every 4th pipeline: a per-output storage mix
+            cases.append({"desc": d, "storage": "file_array" if k % 3 != 2 else "dict", "other": other, "mode": "seq", "picker": []})
+        for k in range(ctx.n(1, 6)):          # bodies of every generation in a random order (C03's permuting executor): `runOnP`
+            cases.append({"desc": gen_case(ctx.rng), "storage": ["file_array", "dict"][k % 2], "mode": "perm", "perm_seed": ctx.rng.randrange(10**6),
+                          "picker": [], "other": [], "max_states": 16 if quick else None})
         if not quick:
             for k in range(ctx.n(1, 8)):
                 cases.append({"desc": gen_case(ctx.rng), "storage": ["file_array", "dict"][k % 2], "mode": "threads", "picker": []})
-        check_all(ctx, lab, cases, second=1 if quick else 3, max_states=None if quick else 200, second_pts=10 if quick else 24)
+        check_all(ctx, lab, cases, second=1 if quick else 3, max_states=36 if quick else 200, max_raises=6 if quick else None, second_pts=4 if quick else 24)
+        ctx.notes.append(f"t(crash enumeration)={ctx.elapsed():.1f}s")
+        c05_cleanup.stream(ctx, lab, quick)      # kills inside the removal of cleanup=True, then cleanup=False
+        ctx.notes.append(f"t(+cleanup stream)={ctx.elapsed():.1f}s")
+        c05_mutres.stream(ctx, lab, quick)       # resumes with a mutated request: refused, or equal to a fresh run of that request
+        ctx.notes.append(f"t(+mutated-resume stream)={ctx.elapsed():.1f}s")
     finally:
         lab.close()
 
 
 def replay(ctx, rec):
-    """Re-create the recorded crash history on a fresh trace of the same pipeline and print both sides."""
+    """Re-create the recorded crash history (one or two kills; a raise; a trace) on a fresh trace of the same pipeline and print
+    both sides.  Records of the mutated-resume stream and of the cleanup stream are handed to their modules."""
     lab = Lab()
     try:
-        case = {"desc": rec["desc"], "storage": rec["storage"], "mode": rec.get("mode", "seq"), "picker": rec.get("picker") or []}
+        hist = rec.get("history") or []
+        kinds = [h["kind"] for h in hist]
+        if "mutate" in kinds:
+            import c05_mutres
+            return c05_mutres.replay(ctx, lab, rec)
+        if "cleanup-kill" in kinds:
+            try:
+                import c05_cleanup
+            except ImportError:
+                print("harness/c05_cleanup.py is not present: cannot replay a cleanup-kill record")
+                return None
+            return c05_cleanup.replay(ctx, lab, rec)
+        case = {"desc": rec["desc"], "storage": rec["storage"], "other": rec.get("other") or [], "mode": rec.get("mode", "seq"),
+                "perm_seed": rec.get("perm_seed", 0), "picker": rec.get("picker") or []}
         f0 = lab.slot()
         res0, ev0, _ = lab.run(lab.spec(case, f0, True), trace=True)
         lab.cleanup(f0)
         print("uninterrupted:", json.dumps(res0)[:600])
-        hist = rec.get("history") or []
         if not hist or hist[0]["kind"] == "trace":
             print("real events :", json.dumps(crashfs.canon_real(ev0, f0))[:3000])
             print("model events:", json.dumps(crashfs.canon_model(ctx.lean([{"m": "map.events", "a": model_req(case)}])[0]["r"]["events"]))[:3000])
-            return
+            return None
         if hist[0]["kind"] == "raise":
             d = lab.slot()
             r1, _e, _c = lab.run(lab.spec(case, d, True, fail={hist[0]["function"]: hist[0]["call_index"]}))
@@ -485,11 +573,27 @@ def replay(ctx, rec):
             lab.cleanup(d)
             print("first run:", r1, "\nfolder:", json.dumps(fs_abs)[:1500], "\nresumed:", json.dumps(r2)[:600], "\ncalls:", c2)
         else:
-            st = resume_state(lab, case, [(ev0, hist[0]["after_events"], hist[0]["torn_bytes"], f0)])
-            for e in ev0[:hist[0]["after_events"] + 1]:
-                print("   ", e[0], os.path.relpath(e[1], f0) if e[0] != "call" else e[1], len(e[2]) if e[0] == "write" else "")
+            def show(n, ev, h, folder):
+                print(f"stage {n}: killed after {h['after_events']} of {len(ev)} events" + (f" (recorded: of {h['of']})" if h.get("of") != len(ev) else "")
+                      + (f", {h['torn_bytes']} bytes into the next write" if h["torn_bytes"] is not None else ""))
+                for e in ev[:h["after_events"] + 1]:
+                    print("   ", e[0], os.path.relpath(e[1], folder) if e[0] != "call" else e[1], len(e[2]) if e[0] == "write" else "")
+            kills = [h for h in hist if h["kind"] == "kill"]
+            stages = [(ev0, kills[0]["after_events"], kills[0]["torn_bytes"], f0)]
+            show(1, ev0, kills[0], f0)
+            for n, h in enumerate(kills[1:], 2):
+                # the events of stage n are those of the (traced, sequential) resumed run on the state left by the stages before it
+                prev = resume_state(lab, case, stages, True)
+                if "unmodelled" in prev or "ok" not in prev["impl"]:
+                    print(f"the resumed run on the state of stage {n - 1} does not complete; there is no stage {n}:", prev.get("unmodelled") or prev["impl"])
+                    break
+                print(f"resumed on the state of stage {n - 1} (traced):", json.dumps(prev["impl"])[:300], "\ncalls:", prev["calls"])
+                show(n, prev["events"], h, prev["folder"])
+                stages.append((prev["events"], h["after_events"], h["torn_bytes"], prev["folder"]))
+            st = resume_state(lab, case, stages)
             print("folder:", json.dumps(st.get("fs"))[:1500], "\nresumed:", json.dumps(st.get("impl"))[:600], "\ncalls:", st.get("calls"))
             fs_abs = st.get("fs")
         print("model:", json.dumps(ctx.lean([{"m": "map.run_on", "a": model_req(case, fs=fs_abs)}])[0]["r"]["result"])[:600])
+        return None
     finally:
         lab.close()
